@@ -11,10 +11,23 @@
 //                    + the long-double frequency response of impz() on a dense grid of the same band: |H(f) - (-i) e^{-2 pi i f M/2}| <= 1e-3
 //   Tuner            out[k] = x[k] exp(2 pi i f k / fs) for every stream index k:  |err| <= |x[k]| (1e-9 + 4 eps 2 pi |f| k / fs),
 //                    any framing (the framed run must be bit-identical to a one-call run of a second object)
+//   OBJECT LIFETIME copies of HilbertFilter / Tuner / Delay (copy-construction, copy-assignment over a live object, elements of vector(n, obj),
+//                    by-value lambda capture, copy of a copy, destroyed copy, self-assignment, moved copy, assignment from an own copy), taken
+//                    from a fresh prototype or mid-stream and then used INTERLEAVED with their source (all objects alive): every object must emit,
+//                    bit for bit, what a separately constructed object fed the same frames emits, and obey the definition above;
+//                    failed calls (rejected constructions / sizes) are interleaved; expressions built from temporaries equal the named form.
+//   LONG STREAMS     one Tuner fed up to 2^24 (+) samples in quick and beyond 2^31 / 2^32 samples in thorough (worker threads), EVERY sample
+//                    against exp(2 pi i f k/fs) with the cycle count f k/fs reduced exactly (128-bit integer arithmetic), frame boundaries at
+//                    every residue around k = 2^16 and 2^24; single frames above 2^16 / 2^17 samples (multiples of 65536 / 49152) after
+//                    shorter ones for HilbertFilter and Delay; input scale classes 1e-300 .. 1e100, zero runs, -0, denormals.
 // CORR: hilbert / hilbert(x,n') / design_fir+impz / HilbertFilter::process / Delay / Tuner replayed by Model/Hilbert.lean (dspdriver_c14).
 #include "common.hpp"
 #include <algorithm>
+#include <atomic>
+#include <chrono>
+#include <memory>
 #include <set>
+#include <thread>
 using namespace dsplib;
 typedef long double ld;
 static vh::Out out;
@@ -73,6 +86,152 @@ static std::vector<int> gen_cuts(vh::Rng& r, int nx, int nf) {
     for (int v : c) { len.push_back(v - prev); prev = v; }
     len.push_back(nx - prev);
     return len;
+}
+
+// =====================================================================================================
+//                 shared pieces of the lifetime / long-stream / large-frame scenarios
+// =====================================================================================================
+static const ld DENORM = 4.9406564584124654e-324L;
+static const double SCALES[] = {1e-300, 1e-17, 1e-8, 1.0, 1e8, 1e100};
+static const int NSC = 6;
+static const char* XKIND[] = {"gauss", "scale-class", "zero-runs-and-negative-zeros", "denormals", "powers-of-two"};
+static const int NXK = 5;
+
+// real input of one of the value classes (lesson 1): 0 gauss, 1 gauss at an absolute scale class, 2 runs of exact zeros (+0 / -0) longer than
+// the histories involved are not guaranteed here (the large-frame scenario has those) but runs of 1..n, 3 denormals, 4 exact powers of two
+static arr_real gen_real_kind(vh::Rng& r, int n, int kind, double sc) {
+    arr_real x(n);
+    for (int i = 0; i < n; ++i) x[i] = r.gauss();
+    if (kind == 1) for (int i = 0; i < n; ++i) x[i] *= sc;
+    else if (kind == 2) {
+        int i = 0;
+        while (i < n) {
+            const int run = r.range(1, std::max(1, n / 2));
+            const int what = r.range(0, 2);   // 0 keep, 1 zeros, 2 negative zeros
+            for (int j = 0; j < run && i < n; ++j, ++i) if (what) x[i] = what == 1 ? 0.0 : -0.0;
+        }
+    } else if (kind == 3) for (int i = 0; i < n; ++i) x[i] = (i % 3 == 0) ? std::copysign(4.9406564584124654e-324, x[i]) : x[i] * 1e-310;
+    else if (kind == 4) for (int i = 0; i < n; ++i) x[i] = std::copysign(std::ldexp(1.0, r.range(-30, 30)), x[i]);
+    return x;
+}
+static arr_cmplx gen_cmplx_kind(vh::Rng& r, int n, int kind, double sc) {
+    const arr_real a = gen_real_kind(r, n, kind, sc), b = gen_real_kind(r, n, kind, sc);
+    arr_cmplx x(n);
+    for (int i = 0; i < n; ++i) x[i] = cmplx_t{a[i], b[i]};
+    return x;
+}
+
+template<class T> static bool same_bits(const T& a, const T& b) { return std::memcmp(&a, &b, sizeof(T)) == 0; }
+static std::string jval(double v) {
+    char b[40];
+    std::snprintf(b, sizeof b, "%.17g", v);
+    return "\"" + vh::hx(v) + " = " + b + "\"";
+}
+static std::string jval(const cmplx_t& v) { return "[" + jval(v.re) + "," + jval(v.im) + "]"; }
+
+template<class T> static base_array<T> cat(const std::vector<base_array<T>>& v) {
+    int n = 0;
+    for (auto& a : v) n += a.size();
+    base_array<T> r(n);
+    int p = 0;
+    for (auto& a : v) for (int i = 0; i < a.size(); ++i) r[p++] = a[i];
+    return r;
+}
+template<class T> static std::vector<int> lens_of(const std::vector<base_array<T>>& v) {
+    std::vector<int> l;
+    for (auto& a : v) l.push_back(a.size());
+    return l;
+}
+template<class T> static std::string frames_str(const std::vector<base_array<T>>& v) {
+    std::string s = std::to_string(v.size());
+    for (auto& a : v) s += " " + vh::hxs(a);
+    return s;
+}
+template<class T> static std::string outs_str(const std::vector<base_array<T>>& v) {
+    std::string s;
+    for (auto& a : v) s += (s.empty() ? "" : " ") + vh::hxs(a);
+    return s;
+}
+
+// frac(f k / fs) in [0, 1): the product f*k and the reduction mod 1 are EXACT (f = m 2^e, 128-bit integer arithmetic); the only rounding is the
+// final quotient (relative 2^-63).  Valid for |f| < 2^40, 0 <= k < 2^40, fs < 2^27.
+static inline ld u128_ld(unsigned __int128 v) { return (ld)(uint64_t)(v >> 64) * 18446744073709551616.0L + (ld)(uint64_t)v; }
+static ld cycles_exact(double f, long long k, int fs) {
+    if (f == 0 || k == 0) return 0;
+    int e;
+    const double mant = std::frexp(std::fabs(f), &e);
+    uint64_t m = (uint64_t)std::ldexp(mant, 53);
+    e -= 53;
+    while ((m & 1) == 0) { m >>= 1; ++e; }
+    const unsigned __int128 N = (unsigned __int128)m * (unsigned __int128)(uint64_t)k;   // < 2^53 * 2^40
+    ld fr;
+    if (e >= 0) {
+        const unsigned __int128 D = (unsigned __int128)(uint64_t)fs;
+        fr = u128_ld((N << e) % D) / (ld)fs;
+    } else if (-e <= 100) {
+        const unsigned __int128 D = (unsigned __int128)(uint64_t)fs << (-e);
+        fr = u128_ld(N % D) / u128_ld(D);
+    } else {
+        fr = fabsl((ld)f) * (ld)k / (ld)fs;   // |f| < 2^-47: far below one cycle, nothing to reduce
+        fr -= floorl(fr);
+    }
+    if (f < 0 && fr != 0) fr = 1 - fr;
+    return fr;
+}
+
+// worst error / bound of y[i] against x[i] exp(2 pi i f (k0 + i) / fs), bound = |x| (1e-9 + 4 eps phase) + 4 denorm
+static ld tuner_worst(int fs, double f, long long k0, const arr_cmplx& x, const arr_cmplx& y, long long& wk, ld& wb) {
+    ld w = 0;
+    wk = -1;
+    wb = 0;
+    for (int i = 0; i < x.size(); ++i) {
+        const long long k = k0 + i;
+        const ld cyc = cycles_exact(f, k, fs);
+        const ld phase_abs = 2 * PIL * fabsl((ld)f) * (ld)k / (ld)fs;
+        const ld c = cosl(2 * PIL * cyc), sn = sinl(2 * PIL * cyc);
+        const ld er = (ld)x[i].re * c - (ld)x[i].im * sn, ei = (ld)x[i].re * sn + (ld)x[i].im * c;
+        const ld mag = hypotl((ld)x[i].re, (ld)x[i].im);
+        const ld bound = mag * (1e-9L + 4 * EPS * phase_abs) + 4 * DENORM;
+        const ld e = hypotl((ld)y[i].re - er, (ld)y[i].im - ei);
+        const ld ratio = e / bound;
+        if (!(ratio <= w)) { w = ratio; wk = k; wb = bound; }
+    }
+    return w;
+}
+
+// failed calls (lesson 4): every one of these throws; nothing that follows on the same thread / the same live objects may notice
+static void provoke_failures(vh::Rng& r) {
+    int n = 0;
+    try { arr_real x(r.range(0, 2)); (void)hilbert(x); } catch (const std::exception&) { ++n; }
+    try { arr_real x(5); x[1] = 1; (void)hilbert(x, r.range(0, 2)); } catch (const std::exception&) { ++n; }
+    try { arr_real h(8); for (int i = 0; i < 4; ++i) { h[i] = i + 1; h[7 - i] = -(i + 1); } HilbertFilter flt(h); (void)flt; } catch (const std::exception&) { ++n; }
+    try { arr_real h(9); for (int i = 0; i < 9; ++i) h[i] = 1; HilbertFilter flt(h); (void)flt; } catch (const std::exception&) { ++n; }
+    try { Tuner t(100, 50.5 + r.range(0, 3)); (void)t; } catch (const std::exception&) { ++n; }
+    try { DelayReal d(0); (void)d.process(arr_real(3)); } catch (const std::exception&) { ++n; }
+    try { DelayCmplx d(0); (void)d.process(arr_cmplx(0)); } catch (const std::exception&) { ++n; }
+    out.stat("failed_calls_provoked", n);
+}
+
+// the definition of HilbertFilter on a whole stream: re = x delayed by M/2 (bits), im = sum_j h[j] x[t-j] (long double, 4 M eps sum |h||x| + M denorm)
+static std::string hf_def(const arr_real& h, const arr_real& x, const arr_cmplx& y, const std::vector<int>* only = nullptr) {
+    const int M = h.size(), D = M / 2, n = x.size();
+    if (y.size() != n) return "\"size\":" + std::to_string(y.size());
+    for (int t = 0; t < n; ++t) {
+        const double e = t < D ? 0.0 : x[t - D];
+        if (!same_bits(y[t].re, e)) return "\"index\":" + std::to_string(t) + ",\"real_part\":" + jval(y[t].re) + ",\"delayed_input\":" + jval(e);
+    }
+    auto one = [&](int t) -> std::string {
+        ld s = 0, sa = 0;
+        for (int j = 0; j < M && j <= t; ++j) { const ld p = (ld)h[j] * (ld)x[t - j]; s += p; sa += fabsl(p); }
+        const ld bound = 4 * (ld)M * EPS * sa + (ld)M * DENORM;
+        const ld e = fabsl((ld)y[t].im - s);
+        if (sa > 0) worst("hf_convolution", e / bound);
+        if (!(e <= bound)) return "\"index\":" + std::to_string(t) + ",\"imag_part\":" + jval(y[t].im) + ",\"sum_h_x\":" + jval((double)s) + ",\"bound\":" + vh::jnum((double)bound);
+        return "";
+    };
+    if (only) { for (int t : *only) { const std::string e = one(t); if (!e.empty()) return e; } }
+    else for (int t = 0; t < n; ++t) { const std::string e = one(t); if (!e.empty()) return e; }
+    return "";
 }
 
 // =====================================================================================================
@@ -319,6 +478,26 @@ static void run_hilbert(bool thorough, vh::Rng& rng) {
         if (corr_dig.count(n)) hilbert_gen_case(n, g_seed + n);
         vh::unwatch();
         out.stat(is_prime(n) ? "hilbert_prime_n" : ((n & (n - 1)) == 0 ? "hilbert_pow2_n" : "hilbert_composite_n"));
+    }
+    // beyond the swept range (lessons 3 and 5): just above 4096, around 2^16 and 2^17, a prime above 46340 (k*k overflows a 32-bit int) and
+    // multiples of it; two signal kinds each (gauss + one by rotation); CORR by digest for the smaller ones
+    {
+        int p = 46341;
+        while (!is_prime(p)) ++p;
+        std::vector<int> big = {4097, p, 65536, 2 * p};
+        if (thorough) { const int more[] = {4099, 5000, 8191, 8192, 8193, 16384, 32768, 65537, 65535, 3 * p, 131072, 131073, 98304, 147456}; for (int v : more) big.push_back(v); }
+        int j = int(g_seed);
+        for (int n : big) {
+            vh::watch(300);
+            for (int q = 0; q < 2; ++q) {
+                const int kind = q == 0 ? 0 : 1 + (j++ % (NHK - 1));
+                hilbert_case(n, kind, g_seed * 1000003ULL + (uint64_t)n * 64 + kind, false);
+            }
+            if (n <= 70000) hilbert_gen_case(n, g_seed + n);
+            vh::unwatch();
+            out.stat("hilbert_lengths_beyond_4096");
+            if (is_prime(n)) out.stat("hilbert_prime_length_above_46340");
+        }
     }
     // below the property's domain (n < 3): the code throws; CORR only
     for (int n = 0; n <= 2; ++n) {
@@ -587,6 +766,55 @@ static void run_hf(bool thorough, vh::Rng& rng) {
         hf_filter(flen, 0.005 + 0.095 * rng.unit(), thorough ? 8 : 4, thorough ? 240 : 96, flen % 50 == 1, false, rng);
         ++idx;
     }
+    // transition widths within one ulp of the ends of the documented range (lesson 6)
+    {
+        const int fl[] = {31, 101, 400};
+        for (int flen : fl) {
+            hf_filter(flen, std::nextafter(0.1, 0.0), 4, 96, true, flen == 31, rng);
+            hf_filter(flen, std::nextafter(0.005, 1.0), 4, 96, true, false, rng);
+            out.stat("hf_tw_within_one_ulp_of_range_end", 2);
+        }
+    }
+    // taps at absolute scale classes (lesson 1): c * (designed taps) is still antisymmetric with a zero centre, hence accepted, and the
+    // definition (real part = delayed input, imaginary part = sum h[j] x[t-j]) is checked as it stands; inputs of every value class
+    for (int j = 0; j < (thorough ? 36 : 12); ++j) {
+        const double sc = SCALES[j % NSC];
+        const int flen = j < 6 ? 31 + 2 * j : rng.range(31, 120);
+        arr_real h;
+        { HilbertFilter probe(flen, 0.05); h = probe.impz(); }
+        for (int i = 0; i < h.size(); ++i) h[i] *= sc;
+        const int xk = (j / 2) % NXK;
+        const double xs = SCALES[(j / 3 + 1) % NSC];
+        const int L = 3 * h.size() + rng.range(0, 30);
+        const arr_real x = gen_real_kind(rng, L, xk, xs);
+        const auto lens = gen_cuts(rng, L, rng.range(1, 4));
+        const std::string js = "{\"op\":\"HilbertFilter(taps * c)\",\"flen\":" + std::to_string(flen) + ",\"tw\":0.05,\"c\":" + vh::jnum(sc) + ",\"input\":\"" + XKIND[xk] + "\",\"scale\":" +
+                               vh::jnum(xk == 1 ? xs : 1.0) + ",\"frames\":" + vh::jints(lens);
+        vh::set_current("C14:hilbertfilter-crash", js + "}");
+        ++out.n_oracle;
+        out.stat("hf_scaled_taps_cases");
+        try {
+            HilbertFilter flt(h);
+            std::vector<arr_real> in;
+            std::vector<arr_cmplx> ov;
+            int p = 0;
+            for (int l : lens) { in.push_back(sub(x, p, l)); ov.push_back(flt.process(in.back())); p += l; }
+            const std::string d = hf_def(h, x, cat(ov));
+            if (!d.empty()) out.fail("C14:hilbertfilter-scaled-taps", js + "," + d + "}");
+            if (h.size() <= 45) out.corr("hfp " + vh::hxs(h) + " " + frames_str(in), outs_str(ov));
+        } catch (const std::exception& e) {
+            // firtype() compares taps with the ABSOLUTE tolerance 2 eps: taps that are all below it count as symmetric (type 1) and the
+            // constructor refuses them ("Only firtype 3 supported").  The constructor from taps is outside the property's domain (flen, tw);
+            // the refusal is recorded and tied to the model (which must refuse too) - anything else that throws is a failure.
+            bool looks_symmetric = true;
+            for (int i = 0; i < h.size() / 2; ++i) if (!(std::fabs(h[i] - h[h.size() - 1 - i]) < 2 * 2.220446049250313e-16)) looks_symmetric = false;
+            if (looks_symmetric) {
+                out.stat("hf_scaled_taps_refused_by_firtype_absolute_tolerance");
+                if (h.size() <= 45) out.corr("hfp " + vh::hxs(h) + " 1 " + vh::hxs(x), "ERR");
+            } else out.fail("C14:hilbertfilter-scaled-taps", js + ",\"threw\":true}");
+        }
+        vh::clear_current();
+    }
     // the constructor from taps: accepts type-3 taps only (CORR: the model reproduces the rejection)
     for (int j = 0; j < 6; ++j) {
         // 0: random (8)   1: random (9)   2: antisymmetric, odd length, centre 0 (the accepted kind)
@@ -644,11 +872,13 @@ static inline bool tun_sel(long long k, long long total, int fs, int stride) {
     return k % stride == 0 || m == 0 || m == 1 || m == fs - 1 || k + 2 >= total;
 }
 
-static void tuner_case(int fs, double f, int total, int fmode, int corr_mode, vh::Rng& rng) {
+static void tuner_case(int fs, double f, int total, int fmode, int corr_mode, vh::Rng& rng, int xk = 0, double sc = 1.0) {
     // corr_mode: 0 none, 1 explicit samples ("tunx"), 2 generated input + selected outputs ("tun")
+    // xk, sc: value class of the input (XKIND; only when the samples are explicit)
     const uint64_t s = rng.next() % 1000000;
     arr_cmplx x(total);
     if (corr_mode == 2) { for (int k = 0; k < total; ++k) x[k] = cmplx_t{gen_re(k, s), gen_im(k, s)}; }
+    else if (xk != 0) { x = gen_cmplx_kind(rng, total, xk, sc); out.stat(std::string("tuner_input_") + XKIND[xk]); }
     else { for (int k = 0; k < total; ++k) x[k] = cmplx_t{rng.gauss(), rng.gauss()}; }
     const auto lens = tuner_frames(rng, total, fs, fmode);
     vh::set_current("C14:tuner-crash", tun_json(fs, f, total, lens, -1, 0, 0));
@@ -695,7 +925,7 @@ static void tuner_case(int fs, double f, int total, int fmode, int corr_mode, vh
         const ld c = cosl(2 * PIL * cyc), sn = sinl(2 * PIL * cyc);
         const ld er = (ld)x[k].re * c - (ld)x[k].im * sn, ei = (ld)x[k].re * sn + (ld)x[k].im * c;
         const ld mag = hypotl((ld)x[k].re, (ld)x[k].im);
-        const ld bound = mag * (1e-9L + 4 * EPS * phase_abs);
+        const ld bound = mag * (1e-9L + 4 * EPS * phase_abs) + (xk == 3 ? 4 * DENORM : 0);   // denormal inputs: the products round at the denormal spacing
         const ld e = hypotl((ld)y[k].re - er, (ld)y[k].im - ei);
         if (mag > 0) { const ld ratio = e / bound; if (!(ratio <= w)) { w = ratio; wk = k; wb = bound; } }
         else if (!(e == 0)) { w = 2; wk = k; wb = 0; }
@@ -758,6 +988,17 @@ static void run_tuner(bool thorough, vh::Rng& rng) {
         fr.push_back(half * rng.sym());
         fr.push_back(rng.sym());
         if (thorough) for (int j = 0; j < 6; ++j) fr.push_back(j % 2 ? half * rng.sym() : double(rng.range(-half, half)) + 0.5 * rng.coin());
+        // extreme but admissible (lesson 6): in (0, eps), denormal, negative zero; within one ulp of the boundary on both sides
+        if (idx % 2 == 0 || thorough) {
+            fr.push_back(4.9406564584124654e-324);
+            fr.push_back(-1e-300);
+            fr.push_back(1e-17);
+            fr.push_back(-2.220446049250313e-16);
+            fr.push_back(-0.0);
+            fr.push_back(-std::nextafter(fs / 2.0, 0.0));
+            fr.push_back(std::nextafter(fs / 2.0, 1e9));    // rejected
+            fr.push_back(-std::nextafter(fs / 2.0, 1e9));   // rejected
+        }
         // boundary of admissibility: fs/2 as a real number for odd fs, and beyond
         fr.push_back(fs / 2.0);
         fr.push_back(-(fs / 2.0));
@@ -774,11 +1015,756 @@ static void run_tuner(bool thorough, vh::Rng& rng) {
             else if (total <= 700) corr_mode = 2;
             else if (big_budget > 0 && ((fi + idx) % (thorough ? 5 : 9) == 0)) { corr_mode = 2; --big_budget; }
             else if (std::fabs(f) > half) corr_mode = 2;   // rejected by the constructor: cheap
-            tuner_case(fs, f, total, fmode, corr_mode, rng);
+            // input value classes (lesson 1): every third case of explicit samples at a scale class / with zero runs and -0 / denormals / powers of two
+            const int xk = (corr_mode != 2 && (fi + 2 * idx) % 3 == 0) ? 1 + (fi + idx) % (NXK - 1) : 0;
+            tuner_case(fs, f, total, fmode, corr_mode, rng, xk, SCALES[(fi + idx) % NSC]);
             ++fi;
         }
         out.stat("tuner_rates");
         ++idx;
+    }
+}
+
+// =====================================================================================================
+//        object lifetime: copies of stateful processors are independent objects carrying the copied state (lesson 2)
+// =====================================================================================================
+template<class P, class T, class U>
+struct Life {
+    typedef base_array<T> AI;
+    typedef base_array<U> AO;
+    std::string key, op, js;
+    std::function<P()> make, make_other;
+    std::function<AI(vh::Rng&, int)> gen;
+    // the definition on one object's whole history: "" when it holds, else a json fragment describing the first violation
+    std::function<std::string(const AI&, const AO&)> defcheck;
+    std::function<void(const std::vector<AI>&, const std::vector<AO>&)> emit;
+};
+
+static const char* LMODE[] = {"copy-constructed", "copy-assigned over a live object of other parameters", "elements 0 and 2 of std::vector<P>(3, obj)",
+                              "captured by value in a lambda (std::function)", "copy of a copy whose intermediate is destroyed",
+                              "a first copy is used and destroyed, then copy-constructed", "after self-assignment of the source, copy-constructed",
+                              "copied, then the copy move-constructed", "the source is assigned from its own copy; both continue"};
+static const int NLMODE = 9;
+
+template<class P, class T, class U>
+static void life_case(const Life<P, T, U>& L, vh::Rng& r, int mode, bool mid, bool with_fail, int maxlen, bool emit) {
+    typedef base_array<T> AI;
+    typedef base_array<U> AO;
+    struct Line {
+        std::string who;
+        std::function<AO(const AI&)> proc;
+        std::vector<AI> in;
+        std::vector<AO> outv;
+    };
+    const std::string head = "{\"op\":\"" + L.op + "\"," + L.js + ",\"copy\":\"" + LMODE[mode] + "\",\"copied\":\"" + (mid ? "mid-stream" : "fresh prototype") +
+                             "\",\"failed_calls_interleaved\":" + (with_fail ? "true" : "false");
+    vh::set_current(L.key, head + "}");
+    vh::watch(120);
+    P a = L.make();
+    std::vector<Line> lines;
+    lines.push_back(Line{"the source object (copies of it are alive)", [&a](const AI& x) { return a.process(x); }, {}, {}});
+    auto flen = [&]() { const int p = r.range(0, 9); return p == 0 ? 0 : p == 1 ? 1 : r.range(1, maxlen); };
+    auto feed = [&](Line& ln, int n) {
+        AI x = L.gen(r, n);
+        AO y = ln.proc(x);
+        ln.in.push_back(x);
+        ln.outv.push_back(y);
+    };
+    if (mid) {
+        const int np = r.range(1, 3);
+        for (int i = 0; i < np; ++i) feed(lines[0], flen());
+        feed(lines[0], r.range(1, maxlen));
+    }
+    const size_t nprefix = lines[0].in.size();
+    if (with_fail) provoke_failures(r);
+    // ---- the copies (all stay alive until the end of the case)
+    std::vector<std::unique_ptr<P>> keep;
+    std::vector<P> vec;
+    auto add_ptr = [&](P* p, const std::string& who) {
+        lines.push_back(Line{who, [p](const AI& x) { return p->process(x); }, lines[0].in, lines[0].outv});
+    };
+    switch (mode) {
+    case 0: keep.push_back(std::make_unique<P>(a)); add_ptr(keep.back().get(), "the copy"); break;
+    case 1: {
+        keep.push_back(std::make_unique<P>(L.make_other()));
+        (void)keep.back()->process(L.gen(r, r.range(1, maxlen)));
+        *keep.back() = a;
+        add_ptr(keep.back().get(), "the copy");
+        break;
+    }
+    case 2: {
+        vec = std::vector<P>(3, a);
+        add_ptr(&vec[0], "element 0");
+        add_ptr(&vec[2], "element 2");
+        break;
+    }
+    case 3: {
+        std::function<AO(const AI&)> fn = [cap = a](const AI& x) mutable { return cap.process(x); };
+        lines.push_back(Line{"the captured copy", fn, lines[0].in, lines[0].outv});
+        break;
+    }
+    case 4: {
+        auto t = std::make_unique<P>(a);
+        keep.push_back(std::make_unique<P>(*t));
+        t.reset();
+        add_ptr(keep.back().get(), "the copy of the copy");
+        break;
+    }
+    case 5: {
+        { P t(a); (void)t.process(L.gen(r, r.range(1, maxlen))); }
+        keep.push_back(std::make_unique<P>(a));
+        add_ptr(keep.back().get(), "the second copy");
+        break;
+    }
+    case 6: {
+        P* volatile pa = &a;
+        a = *pa;
+        keep.push_back(std::make_unique<P>(a));
+        add_ptr(keep.back().get(), "the copy");
+        break;
+    }
+    case 7: {
+        P t(a);
+        keep.push_back(std::make_unique<P>(std::move(t)));
+        add_ptr(keep.back().get(), "the moved copy");
+        break;
+    }
+    default: {
+        keep.push_back(std::make_unique<P>(a));
+        a = *keep.back();
+        add_ptr(keep.back().get(), "the copy");
+        break;
+    }
+    }
+    // ---- source and copies continue INTERLEAVED, each with data of its own
+    const int nround = r.range(2, 4);
+    for (int rd = 0; rd < nround; ++rd) {
+        std::vector<int> order;
+        for (size_t i = 0; i < lines.size(); ++i) order.push_back(int(i));
+        for (size_t i = order.size(); i > 1; --i) std::swap(order[i - 1], order[r.range(0, int(i) - 1)]);
+        for (int li : order) feed(lines[li], rd + 1 == nround ? r.range(1, maxlen) : flen());
+        if (with_fail && rd == 0) provoke_failures(r);
+    }
+    vh::unwatch();
+    vh::clear_current();
+    out.stat("life_cases_" + L.op);
+    out.stat(std::string("life_mode_") + std::to_string(mode));
+    out.stat(mid ? "life_copied_mid_stream" : "life_copied_fresh");
+    // ---- every object against a separately constructed one that never had a copy, and against the definition
+    for (auto& ln : lines) {
+        ++out.n_oracle;
+        const std::string tail = ",\"object\":\"" + ln.who + "\",\"prefix_frames_before_the_copy\":" + std::to_string(nprefix) + ",\"frames\":" + vh::jints(lens_of(ln.in));
+        P ref = L.make();
+        bool bad = false;
+        for (size_t fi = 0; fi < ln.in.size() && !bad; ++fi) {
+            const AO e = ref.process(ln.in[fi]);
+            const AO& g = ln.outv[fi];
+            if (g.size() != e.size()) {
+                out.fail(L.key, head + tail + ",\"frame\":" + std::to_string(fi) + ",\"size\":" + std::to_string(g.size()) + ",\"expected_size\":" + std::to_string(e.size()) + "}");
+                bad = true;
+                break;
+            }
+            for (int i = 0; i < e.size(); ++i)
+                if (!same_bits(g[i], e[i])) {
+                    out.fail(L.key, head + tail + ",\"frame\":" + std::to_string(fi) + ",\"index\":" + std::to_string(i) + ",\"got\":" + jval(g[i]) +
+                                        ",\"separately_constructed_object_gives\":" + jval(e[i]) + "}");
+                    bad = true;
+                    break;
+                }
+        }
+        if (!bad) {
+            const std::string d = L.defcheck(cat(ln.in), cat(ln.outv));
+            if (!d.empty()) out.fail(L.key, head + tail + "," + d + "}");
+        }
+        if (emit && L.emit) L.emit(ln.in, ln.outv);
+    }
+}
+
+static void run_life(bool thorough, vh::Rng& rng) {
+    const int nrep = thorough ? 8 : 2;
+    int c = int(g_seed);
+    for (int rep = 0; rep < nrep; ++rep)
+        for (int mode = 0; mode < NLMODE; ++mode)
+            for (int mid = 1; mid >= 0; --mid, ++c) {
+                const bool with_fail = (c % 3 == 0);
+                const int xk = (c % 2) ? c % NXK : 0;
+                const double sc = SCALES[(c / 2) % NSC];
+                // ---------------- HilbertFilter
+                {
+                    const int flens[] = {31, 32, 37, 64, 101, 200, 401};
+                    const int flen = rep == 0 ? flens[(c + mode) % 7] : rng.range(31, 401);
+                    const double tws[] = {0.01, 0.05, 0.1, 0.005};
+                    const double tw = tws[c % 4];
+                    arr_real h;
+                    { HilbertFilter probe(flen, tw); h = probe.impz(); }
+                    const bool from_taps = (c % 4 == 1);
+                    Life<HilbertFilter, real_t, cmplx_t> L;
+                    L.key = "C14:hilbertfilter-copy";
+                    L.op = "HilbertFilter";
+                    L.js = "\"flen\":" + std::to_string(flen) + ",\"tw\":" + vh::jnum(tw) + ",\"constructed_from\":\"" + (from_taps ? "taps" : "flen, tw") + "\",\"input\":\"" + XKIND[xk] +
+                           "\",\"scale\":" + vh::jnum(xk == 1 ? sc : 1.0);
+                    L.make = [=]() { return from_taps ? HilbertFilter(h) : HilbertFilter(flen, tw); };
+                    L.make_other = [=]() { return HilbertFilter(flen + 10, 0.02); };
+                    L.gen = [=](vh::Rng& r, int n) { return gen_real_kind(r, n, xk, sc); };
+                    L.defcheck = [=](const arr_real& x, const arr_cmplx& y) { return hf_def(h, x, y); };
+                    L.emit = [=](const std::vector<arr_real>& in, const std::vector<arr_cmplx>& ov) { out.corr("hfp " + vh::hxs(h) + " " + frames_str(in), outs_str(ov)); };
+                    life_case(L, rng, mode, mid, with_fail, h.size() + 40, h.size() <= 65 && (thorough ? rep < 2 : true));
+                }
+                // ---------------- Tuner
+                {
+                    const int rates[] = {8, 9, 64, 100, 1000, 4099};
+                    const int fs = rates[(c + rep) % 6];
+                    const int half = fs / 2;
+                    double f;
+                    switch (c % 5) {
+                    case 0: f = double(rng.range(-half, half)); break;
+                    case 1: f = half * rng.sym(); break;
+                    case 2: f = 1.0 / 3.0; break;
+                    case 3: f = -(half - 0.5); break;
+                    default: f = fs / 2.0; break;
+                    }
+                    Life<Tuner, cmplx_t, cmplx_t> L;
+                    L.key = "C14:tuner-copy";
+                    L.op = "Tuner";
+                    L.js = "\"fs\":" + std::to_string(fs) + ",\"freq\":" + vh::jnum(f) + ",\"freq_bits\":\"" + vh::hx(f) + "\",\"input\":\"" + XKIND[xk] + "\",\"scale\":" + vh::jnum(xk == 1 ? sc : 1.0);
+                    L.make = [=]() { return Tuner(fs, f); };
+                    L.make_other = [=]() { return Tuner(fs + 3, 0.75); };
+                    L.gen = [=](vh::Rng& r, int n) { return gen_cmplx_kind(r, n, xk, sc); };
+                    L.defcheck = [=](const arr_cmplx& x, const arr_cmplx& y) -> std::string {
+                        if (y.size() != x.size()) return "\"size\":" + std::to_string(y.size());
+                        long long wk;
+                        ld wb;
+                        const ld w = tuner_worst(fs, f, 0, x, y, wk, wb);
+                        worst("tuner_copies", w);
+                        if (!(w <= 1)) return "\"index\":" + std::to_string(wk) + ",\"error\":" + vh::jnum((double)(w * wb)) + ",\"bound\":" + vh::jnum((double)wb);
+                        return "";
+                    };
+                    L.emit = [=](const std::vector<arr_cmplx>& in, const std::vector<arr_cmplx>& ov) {
+                        out.corr("tunx " + std::to_string(fs) + " " + vh::hx(f) + " " + frames_str(in), outs_str(ov));
+                    };
+                    const int maxlen = fs <= 100 ? 2 * fs + 3 : fs / 2 + 7;
+                    life_case(L, rng, mode, mid, with_fail, maxlen, fs <= 100 && (thorough ? rep < 2 : true));
+                }
+                // ---------------- Delay (real: zero-filled / initial contents; complex)
+                {
+                    const int nd = (c % 4 == 0) ? 1 + c % 3 : rng.range(1, 120);
+                    const bool with_init = (c % 2 == 1);
+                    arr_real ini = gen_real_kind(rng, nd, xk, sc);
+                    Life<DelayReal, real_t, real_t> L;
+                    L.key = "C14:delay-copy";
+                    L.op = "DelayReal";
+                    L.js = "\"nd\":" + std::to_string(nd) + ",\"initial_contents\":" + (with_init ? "true" : "false") + ",\"input\":\"" + XKIND[xk] + "\",\"scale\":" + vh::jnum(xk == 1 ? sc : 1.0);
+                    L.make = [=]() { return with_init ? DelayReal(ini) : DelayReal(nd); };
+                    L.make_other = [=]() { return DelayReal(nd + 5); };
+                    L.gen = [=](vh::Rng& r, int n) { return gen_real_kind(r, n, xk, sc); };
+                    L.defcheck = [=](const arr_real& x, const arr_real& y) -> std::string {
+                        if (y.size() != x.size()) return "\"size\":" + std::to_string(y.size());
+                        for (int t = 0; t < x.size(); ++t) {
+                            const double e = t < nd ? (with_init ? ini[t] : 0.0) : x[t - nd];
+                            if (!same_bits(y[t], e)) return "\"index\":" + std::to_string(t) + ",\"got\":" + jval(y[t]) + ",\"expected\":" + jval(e);
+                        }
+                        return "";
+                    };
+                    L.emit = [=](const std::vector<arr_real>& in, const std::vector<arr_real>& ov) {
+                        if (with_init) out.corr("dlyI " + vh::hxs(ini) + " " + frames_str(in), outs_str(ov));
+                        else out.corr("dlyR " + std::to_string(nd) + " " + frames_str(in), outs_str(ov));
+                    };
+                    life_case(L, rng, mode, mid, with_fail, 2 * nd + 20, nd <= 40 && (thorough ? rep < 2 : true));
+                }
+                {
+                    const int nd = (c % 4 == 1) ? 1 + c % 3 : rng.range(1, 120);
+                    const bool with_init = (c % 2 == 0);
+                    arr_cmplx ini = gen_cmplx_kind(rng, nd, xk, sc);
+                    Life<DelayCmplx, cmplx_t, cmplx_t> L;
+                    L.key = "C14:delay-copy";
+                    L.op = "DelayCmplx";
+                    L.js = "\"nd\":" + std::to_string(nd) + ",\"initial_contents\":" + (with_init ? "true" : "false") + ",\"input\":\"" + XKIND[xk] + "\",\"scale\":" + vh::jnum(xk == 1 ? sc : 1.0);
+                    L.make = [=]() { return with_init ? DelayCmplx(ini) : DelayCmplx(nd); };
+                    L.make_other = [=]() { return DelayCmplx(nd + 5); };
+                    L.gen = [=](vh::Rng& r, int n) { return gen_cmplx_kind(r, n, xk, sc); };
+                    L.defcheck = [=](const arr_cmplx& x, const arr_cmplx& y) -> std::string {
+                        if (y.size() != x.size()) return "\"size\":" + std::to_string(y.size());
+                        for (int t = 0; t < x.size(); ++t) {
+                            const cmplx_t e = t < nd ? (with_init ? ini[t] : cmplx_t{0, 0}) : x[t - nd];
+                            if (!same_bits(y[t], e)) return "\"index\":" + std::to_string(t) + ",\"got\":" + jval(y[t]) + ",\"expected\":" + jval(e);
+                        }
+                        return "";
+                    };
+                    L.emit = [=](const std::vector<arr_cmplx>& in, const std::vector<arr_cmplx>& ov) {
+                        if (with_init) out.corr("dlyJ " + vh::hxs(ini) + " " + frames_str(in), outs_str(ov));
+                        else out.corr("dlyC " + std::to_string(nd) + " " + frames_str(in), outs_str(ov));
+                    };
+                    life_case(L, rng, mode, mid, with_fail, 2 * nd + 20, nd <= 40 && (thorough ? rep < 2 : true));
+                }
+            }
+}
+
+// ---- results of expressions built from TEMPORARIES (rvalue operands, temporary processors, results bound to const& / iterated by range-for)
+//      equal the results from named operands bit for bit
+static void run_temporaries(bool thorough, vh::Rng& rng) {
+    const int ncase = thorough ? 40 : 8;
+    for (int j = 0; j < ncase; ++j) {
+        const int xk = j % NXK;
+        const double sc = SCALES[j % NSC];
+        const int n1 = rng.range(3, 90), n2 = rng.range(1, 90);
+        const arr_real a = gen_real_kind(rng, n1, xk, sc), b = gen_real_kind(rng, n2, xk, sc), a2 = gen_real_kind(rng, n1, xk, sc);
+        const arr_cmplx ca = gen_cmplx_kind(rng, n1, xk, sc), cb = gen_cmplx_kind(rng, n2, xk, sc);
+        const std::string js = "\"input\":\"" + std::string(XKIND[xk]) + "\",\"scale\":" + vh::jnum(xk == 1 ? sc : 1.0) + ",\"n1\":" + std::to_string(n1) + ",\"n2\":" + std::to_string(n2);
+        vh::set_current("C14:temporaries", "{" + js + "}");
+        auto cmp = [&](const char* expr, const arr_cmplx& g, const arr_cmplx& e) {
+            ++out.n_oracle;
+            out.stat("temporaries_expressions");
+            bool ok = g.size() == e.size();
+            int bi = -1;
+            for (int i = 0; ok && i < e.size(); ++i) if (!same_bits(g[i], e[i])) { ok = false; bi = i; }
+            if (!ok) out.fail("C14:temporaries", std::string("{\"expression\":\"") + expr + "\"," + js + ",\"index\":" + std::to_string(bi) +
+                                                     (bi >= 0 ? ",\"got\":" + jval(g[bi]) + ",\"named_operands_give\":" + jval(e[bi]) : std::string()) + "}");
+        };
+        auto cmpr = [&](const char* expr, const arr_real& g, const arr_real& e) {
+            arr_cmplx gg(g.size()), ee(e.size());
+            for (int i = 0; i < g.size(); ++i) gg[i] = cmplx_t{g[i], 0};
+            for (int i = 0; i < e.size(); ++i) ee[i] = cmplx_t{e[i], 0};
+            cmp(expr, gg, ee);
+        };
+        const int fs = rng.range(8, 200);
+        const double f = (j % 2) ? double(rng.range(-fs / 2, fs / 2)) : (fs / 2) * rng.sym();
+        const int flen = rng.range(31, 80);
+        {   // Tuner
+            const arr_cmplx cat2 = ca | cb;
+            Tuner named(fs, f);
+            const arr_cmplx e = named.process(cat2);
+            const arr_cmplx& g = Tuner(fs, f).process(ca | cb);
+            cmp("const arr_cmplx& g = Tuner(fs, f).process(ca | cb)", g, e);
+            Tuner t2(fs, f);
+            arr_cmplx acc(0);
+            for (const cmplx_t& v : t2(ca | cb)) acc = acc | arr_cmplx{v};
+            cmp("for (const cmplx_t& v : tuner(ca | cb))", acc, e);
+            Tuner t3(fs, f);
+            const arr_cmplx e1 = named.process(cat2 * 2.0);   // `named` continues after the first call
+            (void)t3.process(ca | cb);
+            cmp("tuner.process((ca | cb) * 2.0) as a second call", t3.process((ca | cb) * 2.0), e1);
+        }
+        {   // HilbertFilter
+            const arr_real s = a + a2;
+            HilbertFilter named(flen, 0.05);
+            const arr_cmplx e = named.process(s);
+            const arr_cmplx& g = HilbertFilter(flen, 0.05).process(a + a2);
+            cmp("const arr_cmplx& g = HilbertFilter(flen, tw).process(a + a2)", g, e);
+            const arr_real nb = -b;
+            const arr_cmplx e2 = named.process(nb | a);
+            HilbertFilter h2(flen, 0.05);
+            (void)h2(a + a2);
+            cmp("flt(-b | a) as a second call", h2(-b | a), e2);
+        }
+        {   // hilbert
+            const arr_real s = a - a2;
+            cmp("hilbert(a - a2)", hilbert(a - a2), hilbert(s));
+            const arr_real cat2 = a | b;
+            const int np = rng.range(3, n1 + n2 + 9);
+            const arr_cmplx& g = hilbert(a | b, np);
+            cmp("const arr_cmplx& g = hilbert(a | b, n)", g, hilbert(cat2, np));
+        }
+        {   // Delay
+            const int nd = rng.range(1, 40);
+            const arr_real s = a * 0.5;
+            DelayReal named(nd);
+            const arr_real e = named.process(s);
+            const arr_real& g = DelayReal(nd).process(a * 0.5);
+            cmpr("const arr_real& g = DelayReal(nd).process(a * 0.5)", g, e);
+            const arr_real& g2 = DelayReal(a).process(-b);
+            DelayReal named2(a);
+            const arr_real nb = -b;
+            cmpr("DelayReal(a).process(-b)", g2, named2.process(nb));
+            const arr_cmplx cs = ca | cb;
+            DelayCmplx cn(nd);
+            cmp("DelayCmplx(nd).process(ca | cb)", DelayCmplx(nd).process(ca | cb), cn.process(cs));
+        }
+        vh::clear_current();
+    }
+}
+
+// =====================================================================================================
+//        large single frames after shorter ones (lesson 3): HilbertFilter and Delay
+// =====================================================================================================
+static std::string lens_str(const std::vector<int>& lens) {
+    std::string s = std::to_string(lens.size());
+    for (int l : lens) s += " " + std::to_string(l);
+    return s;
+}
+// generated input x[k] = gen_re(k, s) * sc, with a run of exact zeros (+0 then -0) longer than any history in the second quarter when `zeros`
+static arr_real big_real(int n, uint64_t s, double sc) {
+    arr_real x(n);
+    for (int k = 0; k < n; ++k) x[k] = gen_re(k, s) * sc;
+    return x;
+}
+
+static void run_large(bool thorough, vh::Rng& rng) {
+    std::vector<std::vector<int>> pats = {{137, 20000, 1, 70000, 513, 140000, 7}};
+    if (thorough) {
+        pats.push_back({1, 16385, 32769, 65537, 131073});
+        pats.push_back({64, 65536, 3, 131072, 65536});
+        pats.push_back({1000, 49152, 98304, 5, 147456});
+        pats.push_back({140000, 70000, 20000, 33});
+        pats.push_back({3, 16384, 16385, 2, 140000, 0, 262144});
+    }
+    int c = int(g_seed);
+    for (size_t pi = 0; pi < pats.size(); ++pi) {
+        const std::vector<int>& lens = pats[pi];
+        int total = 0;
+        for (int l : lens) total += l;
+        const int nrep = thorough ? 3 : 2;
+        for (int rep = 0; rep < nrep; ++rep, ++c) {
+            const uint64_t s = rng.next() % 1000000;
+            const double sc = (c % 2) ? SCALES[(c / 2) % NSC] : 1.0;
+            // ------------------------------------------------ HilbertFilter
+            {
+                const int flens[] = {33, 401, 64, 257, 31, 129};
+                const int flen = rep == 0 ? 33 : flens[(c + int(pi)) % 6];
+                const double tw = (c % 3 == 0) ? 0.01 : 0.05;
+                const std::string js = "{\"op\":\"HilbertFilter, large frames after short ones\",\"flen\":" + std::to_string(flen) + ",\"tw\":" + vh::jnum(tw) + ",\"generated_seed\":" +
+                                       std::to_string(s) + ",\"scale\":" + vh::jnum(sc) + ",\"frames\":" + vh::jints(lens);
+                vh::set_current("C14:hilbertfilter-large-frame", js + "}");
+                vh::watch(300);
+                HilbertFilter flt(flen, tw), small(flen, tw);
+                const arr_real h = flt.impz();
+                const int M = h.size();
+                arr_real x = big_real(total, s, sc);
+                // a run of exact zeros longer than the filter inside the first large frame, followed by a run of negative zeros (NOT mirrored by the
+                // driver's generator: only when this case is not emitted)
+                const bool emit = (rep == 0) && (pi == 0 || pi == 2);
+                if (!emit) { for (int k = 0; k < 3 * M && 300 + k < total; ++k) x[300 + k] = (k < 2 * M) ? 0.0 : -0.0; }
+                arr_cmplx y(total);
+                int p = 0;
+                bool ok = true;
+                for (int l : lens) {
+                    const arr_cmplx yy = flt.process(sub(x, p, l));
+                    if (yy.size() != l) { out.fail("C14:hilbertfilter-large-frame", js + ",\"frame_at\":" + std::to_string(p) + ",\"size\":" + std::to_string(yy.size()) + "}"); ok = false; break; }
+                    for (int i = 0; i < l; ++i) y[p + i] = yy[i];
+                    p += l;
+                }
+                ++out.n_oracle;
+                if (ok) {
+                    // (a) the definition: real part everywhere, imaginary part around every frame boundary + a random sample
+                    std::set<int> idx;
+                    int q = 0;
+                    for (int l : lens) {
+                        for (int d = -2; d < M + 2; ++d) { if (q + d >= 0 && q + d < total) idx.insert(q + d); }
+                        q += l;
+                    }
+                    for (int d = 1; d <= 3; ++d) idx.insert(total - d);
+                    for (int j = 0; j < (thorough ? 6000 : 2500); ++j) idx.insert(rng.range(0, total - 1));
+                    for (int d = 0; d < 4 * M && 295 + d < total; ++d) idx.insert(295 + d);
+                    const std::vector<int> only(idx.begin(), idx.end());
+                    const std::string d = hf_def(h, x, y, &only);
+                    out.n_oracle += (long long)only.size();
+                    if (!d.empty()) out.fail("C14:hilbertfilter-large-frame", js + "," + d + "}");
+                    // (b) a second object fed frames of 4099 samples gives the same bits
+                    int p2 = 0;
+                    bool same = true;
+                    while (p2 < total && same) {
+                        const int l = std::min(4099, total - p2);
+                        const arr_cmplx yy = small.process(sub(x, p2, l));
+                        for (int i = 0; i < l; ++i)
+                            if (!same_bits(yy[i], y[p2 + i])) {
+                                out.fail("C14:hilbertfilter-large-frame", js + ",\"index\":" + std::to_string(p2 + i) + ",\"got\":" + jval(y[p2 + i]) + ",\"fed_in_frames_of_4099\":" + jval(yy[i]) + "}");
+                                same = false;
+                                break;
+                            }
+                        p2 += l;
+                    }
+                    if (emit) out.corr("hfg " + vh::hxs(h) + " " + vh::hx(sc) + " " + std::to_string(s) + " " + lens_str(lens), digest(y));
+                }
+                vh::unwatch();
+                vh::clear_current();
+                out.stat("large_frame_cases_hilbertfilter");
+            }
+            // ------------------------------------------------ Delay (real / complex)
+            {
+                const int nds[] = {1, 200, 65536, 4097, 70001, 3};
+                const int nd = nds[(c + int(pi)) % 6];
+                const std::string js = "{\"op\":\"Delay, large frames after short ones\",\"nd\":" + std::to_string(nd) + ",\"generated_seed\":" + std::to_string(s) + ",\"scale\":" + vh::jnum(sc) +
+                                       ",\"frames\":" + vh::jints(lens);
+                vh::set_current("C14:delay-large-frame", js + "}");
+                vh::watch(300);
+                arr_cmplx x(total);
+                for (int k = 0; k < total; ++k) x[k] = cmplx_t{gen_re(k, s) * sc, gen_im(k, s) * sc};
+                const bool real_case = (c % 2 == 0);
+                arr_cmplx y(total);
+                int p = 0;
+                bool ok = true;
+                if (real_case) {
+                    DelayReal d(nd);
+                    arr_real xr(total);
+                    for (int k = 0; k < total; ++k) xr[k] = x[k].re;
+                    for (int k = 0; k < total; ++k) x[k].im = 0;
+                    for (int l : lens) {
+                        const arr_real yy = d.process(sub(xr, p, l));
+                        if (yy.size() != l) { ok = false; break; }
+                        for (int i = 0; i < l; ++i) y[p + i] = cmplx_t{yy[i], 0};
+                        p += l;
+                    }
+                } else {
+                    DelayCmplx d(nd);
+                    for (int l : lens) {
+                        const arr_cmplx yy = d.process(sub(x, p, l));
+                        if (yy.size() != l) { ok = false; break; }
+                        for (int i = 0; i < l; ++i) y[p + i] = yy[i];
+                        p += l;
+                    }
+                }
+                ++out.n_oracle;
+                if (!ok) out.fail("C14:delay-large-frame", js + ",\"frame_at\":" + std::to_string(p) + ",\"size\":\"wrong\"}");
+                else {
+                    for (int t = 0; t < total; ++t) {
+                        const cmplx_t e = t < nd ? cmplx_t{0, 0} : x[t - nd];
+                        if (!same_bits(y[t], e)) { out.fail("C14:delay-large-frame", js + ",\"index\":" + std::to_string(t) + ",\"got\":" + jval(y[t]) + ",\"expected\":" + jval(e) + "}"); break; }
+                    }
+                    if (rep == 0) out.corr(std::string(real_case ? "dlygR " : "dlygC ") + std::to_string(nd) + " " + vh::hx(sc) + " " + std::to_string(s) + " " + lens_str(lens), digest(y));
+                }
+                vh::unwatch();
+                vh::clear_current();
+                out.stat("large_frame_cases_delay");
+            }
+        }
+    }
+}
+
+// =====================================================================================================
+//        long Tuner streams (worker threads): every sample of up to 2^24 (quick) / beyond 2^31 and 2^32 (thorough) samples through ONE object
+// =====================================================================================================
+static const long long SOAK_P = (1LL << 20) + 7;   // period of the generated input: x[k] = (gen_re(k mod P, s), gen_im(k mod P, s))
+struct Soak {
+    // ---- what to run
+    std::string label;
+    int fs = 0;
+    double f = 0;
+    long long total = 0;
+    int fmode = 0;              // 0 constant frames of 2^20, 1 mixed sizes (large / awkward / tiny near the centres), 2 constant `resL` with the centre at residue `resR`
+    int resL = 0, resR = 0;
+    long long resK = 0;
+    uint64_t seed = 1;
+    std::vector<long long> centres;   // stream indices around which 64 outputs go into a CORR line
+    // ---- what happened (filled by the worker; reported by the main thread)
+    long long samples = 0, frames = 0, empty_frames = 0, max_frame = 0;
+    bool threw = false, size_bad = false, frame_boundary_on_centre = false;
+    long long bad_k = -1;
+    cmplx_t bad_got{0, 0};
+    ld bad_er = 0, bad_ei = 0, bad_bound = 0;
+    long long bad_frame_start = 0, bad_frame_len = 0;
+    ld worst_ratio = 0;         // at the anchors (exact evaluation)
+    double secs = 0;
+    std::vector<std::vector<cmplx_t>> win;
+};
+
+static int soak_next_len(Soak& S, vh::Rng& r, long long k0, bool& aligned) {
+    const int BIG = 1 << 20;
+    if (S.fmode == 0) return BIG;
+    if (S.fmode == 2) {
+        if (!aligned) {
+            const long long d = S.resK - 4096 - 2 * (long long)S.resL - k0;
+            if (d > 0) return int(std::min<long long>(BIG, d));
+            aligned = true;
+            const long long first = ((S.resK - S.resR - k0) % S.resL + S.resL) % S.resL;
+            if (first > 0) return int(first);
+        }
+        return S.resL;
+    }
+    // mixed
+    for (long long K : S.centres) { const long long d = K - k0; if (d > -600 && d <= 3000) return r.range(0, 17); }
+    static const int tab[] = {1 << 20, (1 << 20) + 1, (1 << 20) - 1, 65537, 131073, 3 * 49152, 20 * 49152, 16 * 65536 - 65536, 1 << 19, 0, 1, 3 << 19};
+    const int p = r.range(0, 15);
+    int l = p < 12 ? tab[p] : r.range(1, 3 << 19);
+    for (long long K : S.centres) if (k0 < K - 3000 && k0 + l > K - 3000) l = int(K - 3000 - k0);   // do not jump over the fine-grained zone
+    return l;
+}
+
+static void soak_run(Soak& S) {
+    const auto t0 = std::chrono::steady_clock::now();
+    vh::Rng r(S.seed * 77 + 5);
+    const uint64_t s = S.seed % 1000000;
+    std::vector<cmplx_t> G(SOAK_P);
+    for (long long j = 0; j < SOAK_P; ++j) G[j] = cmplx_t{gen_re(j, s), gen_im(j, s)};
+    S.win.assign(S.centres.size(), std::vector<cmplx_t>(64, cmplx_t{0, 0}));
+    const ld th = 2 * PIL * ((ld)S.f / (ld)S.fs);
+    const ld cr = cosl(th), sr = sinl(th);
+    try {
+        Tuner tn(S.fs, S.f);
+        long long k0 = 0;
+        bool aligned = false;
+        arr_cmplx x(0);
+        while (k0 < S.total) {
+            long long L = soak_next_len(S, r, k0, aligned);
+            if (L > S.total - k0) L = S.total - k0;
+            if (x.size() != L) x = arr_cmplx(int(L));
+            {
+                long long j = k0 % SOAK_P;
+                for (int i = 0; i < L; ++i) { x[i] = G[j]; if (++j == SOAK_P) j = 0; }
+            }
+            const arr_cmplx y = tn.process(x);
+            ++S.frames;
+            if (L == 0) ++S.empty_frames;
+            if (L > S.max_frame) S.max_frame = L;
+            for (long long K : S.centres) if (k0 == K) S.frame_boundary_on_centre = true;
+            if (y.size() != L) { S.size_bad = true; S.bad_frame_start = k0; S.bad_frame_len = L; break; }
+            // every sample: exact evaluation at anchors 4096 apart, long-double rotation in between
+            for (int i0 = 0; i0 < L && S.bad_k < 0; i0 += 4096) {
+                const long long ka = k0 + i0;
+                const ld cyc = cycles_exact(S.f, ka, S.fs);
+                ld c = cosl(2 * PIL * cyc), sn = sinl(2 * PIL * cyc);
+                const ld cb = 1e-9L + 4 * EPS * (2 * PIL * fabsl((ld)S.f) * (ld)(ka + 4096) / (ld)S.fs);
+                const ld cb2 = cb * cb;
+                const int i1 = int(std::min<long long>(L, i0 + 4096));
+                for (int i = i0; i < i1; ++i) {
+                    const ld xr = x[i].re, xi = x[i].im;
+                    const ld er = xr * c - xi * sn, ei = xr * sn + xi * c;
+                    const ld dr = (ld)y[i].re - er, di = (ld)y[i].im - ei;
+                    const ld e2 = dr * dr + di * di, m2 = xr * xr + xi * xi;
+                    if (!(e2 <= m2 * cb2)) {
+                        S.bad_k = k0 + i;
+                        S.bad_got = y[i];
+                        // re-evaluate the reference exactly at the failing index
+                        const ld cy = cycles_exact(S.f, k0 + i, S.fs);
+                        const ld cc = cosl(2 * PIL * cy), ss = sinl(2 * PIL * cy);
+                        S.bad_er = xr * cc - xi * ss;
+                        S.bad_ei = xr * ss + xi * cc;
+                        S.bad_bound = sqrtl(m2) * cb;
+                        S.bad_frame_start = k0;
+                        S.bad_frame_len = L;
+                        break;
+                    }
+                    if (i == i0 && m2 > 0) { const ld q = sqrtl(e2 / (m2 * cb2)); if (q > S.worst_ratio) S.worst_ratio = q; }
+                    const ld cn = c * cr - sn * sr;
+                    sn = c * sr + sn * cr;
+                    c = cn;
+                }
+            }
+            for (size_t w = 0; w < S.centres.size(); ++w) {
+                const long long a = S.centres[w] - 32;
+                for (long long k = std::max(a, k0); k < std::min(a + 64, k0 + L); ++k) S.win[w][k - a] = y[int(k - k0)];
+            }
+            S.samples += L;
+            k0 += L;
+            if (S.bad_k >= 0) break;
+        }
+    } catch (const std::exception&) { S.threw = true; }
+    S.secs = std::chrono::duration<double>(std::chrono::steady_clock::now() - t0).count();
+}
+
+static std::vector<Soak> g_soaks;
+static std::vector<std::thread> g_soak_threads;
+static std::atomic<int> g_soak_next{0};
+
+static void soak_plan(bool thorough, vh::Rng& rng) {
+    auto add = [&](const std::string& label, int fs, double f, long long total, int fmode, std::vector<long long> centres, int resL = 0, int resR = 0, long long resK = 0) {
+        Soak S;
+        S.label = label;
+        S.fs = fs;
+        S.f = f;
+        S.total = total;
+        S.fmode = fmode;
+        S.resL = resL;
+        S.resR = resR;
+        S.resK = resK;
+        S.seed = rng.next() % 1000000 + 1;
+        centres.push_back(total - 32);
+        for (long long K : centres) if (K >= 32 && K + 32 <= total) S.centres.push_back(K);
+        g_soaks.push_back(S);
+    };
+    const long long P16 = 1LL << 16, P24 = 1LL << 24, P31 = 1LL << 31, P32 = 1LL << 32;
+    if (thorough) {
+        // the long ones first (they determine the wall time): beyond 2^31 and 2^32 samples through one object
+        add("soak-2^32-fractional-f", 100000, 0.3, P32 + (1 << 21) + 12345, 0, {P16, P24, P31, P32});
+        add("soak-2^31-random-fractional-f-mixed-frames", rng.range(8000, 100000), 0, P31 + (1 << 21) + rng.range(1, 99999), 1, {P16, P24, P31});
+        add("soak-2^31-integer-f", 44100, 1000.0, P31 + (1 << 21) + 4321, 1, {P16, P24, P31});
+        add("soak-2^31-negative-fractional-f-near-nyquist", 8000, -3999.5, P31 + (1 << 20) + 777, 1, {P16, P24, P31});
+        add("soak-2^31-tiny-f", 48000, 1e-3, P31 + (1 << 20) + 1, 0, {P24, P31});
+        g_soaks[1].f = (g_soaks[1].fs / 2) * rng.sym();
+    }
+    // up to 2^24 (+) samples: integer and fractional f, constant and mixed frames
+    add("stream-2^24-fractional-f", 100000, 0.3, P24 + (1 << 20) + 4099, 0, {P16, P24});
+    add("stream-2^24-integer-f", 44100, double(rng.range(-22050, 22050)), P24 + (1 << 18) + 17, 1, {P16, P24});
+    {
+        const int fs = rng.range(8, 100000);
+        add("stream-2^24-random-fractional-f-mixed-frames", fs, (fs / 2) * rng.sym(), P24 + (1 << 19) + rng.range(0, 9999), 1, {P16, P24});
+    }
+    // frame boundaries at every residue around 2^16 ...
+    {
+        const int Ls[] = {2, 3, 5, 7, 16, 17};
+        int j = 0;
+        for (int L : Ls)
+            for (int res = 0; res < L; ++res, ++j) {
+                if (!thorough && (j + int(g_seed)) % 3 != 0 && res != 0) continue;
+                const int fs = (j % 4 == 0) ? 65536 : (j % 4 == 1) ? 65537 : rng.range(8, 100000);
+                const double f = (j % 2) ? double(rng.range(-fs / 2, fs / 2)) : (fs / 2) * rng.sym();
+                add("cross-2^16-frames-of-" + std::to_string(L) + "-residue-" + std::to_string(res), fs, f, P16 + 5 * L + 40, 2, {P16}, L, res, P16);
+            }
+    }
+    // ... and around 2^24 (the prefix in frames of 2^20)
+    {
+        const int Ls[] = {3, 16};
+        int j = 0;
+        for (int L : Ls)
+            for (int res = 0; res < L; ++res, ++j) {
+                if (!thorough && !(L == 16 && (res == 0 || res == 1 || res == 15)) && !(L == 3 && res == 2)) continue;
+                const int fs = (j % 3 == 0) ? 100000 : rng.range(8, 100000);
+                const double f = (j % 2 == 0) ? (fs / 2) * rng.sym() : double(rng.range(-fs / 2, fs / 2));
+                add("cross-2^24-frames-of-" + std::to_string(L) + "-residue-" + std::to_string(res), fs, f, P24 + 5 * L + 4200, 2, {P24}, L, res, P24);
+            }
+    }
+}
+
+static void soak_start() {
+    unsigned nthr = std::thread::hardware_concurrency();
+    if (nthr == 0) nthr = 2;
+    nthr = std::min<unsigned>(std::min<unsigned>(nthr, 8), unsigned(g_soaks.size()));
+    for (unsigned t = 0; t < nthr; ++t)
+        g_soak_threads.emplace_back([]() {
+            for (;;) {
+                const int j = g_soak_next.fetch_add(1);
+                if (j >= int(g_soaks.size())) return;
+                soak_run(g_soaks[j]);
+            }
+        });
+}
+
+static void soak_finish() {
+    for (auto& t : g_soak_threads) t.join();
+    for (Soak& S : g_soaks) {
+        const bool integral = S.f == std::floor(S.f);
+        std::ostringstream o;
+        o << "{\"op\":\"Tuner, one object, long stream\",\"scenario\":\"" << S.label << "\",\"fs\":" << S.fs << ",\"freq\":" << vh::jnum(S.f) << ",\"freq_bits\":\"" << vh::hx(S.f)
+          << "\",\"samples_planned\":" << S.total << ",\"input\":\"x[k] = (gen_re(k mod " << SOAK_P << ", s), gen_im(..)), s = " << (S.seed % 1000000) << "\",\"frame_mode\":"
+          << (S.fmode == 0 ? "\"constant 2^20\"" : S.fmode == 1 ? "\"mixed sizes\"" : "\"constant " + std::to_string(S.resL) + ", centre at residue " + std::to_string(S.resR) + "\"");
+        const std::string head = o.str();
+        out.n_oracle += S.samples;
+        out.stat("tuner_long_stream_objects");
+        out.stat("tuner_long_stream_samples", S.samples);
+        out.stat("tuner_long_stream_frames", S.frames);
+        out.stat("tuner_long_stream_empty_frames", S.empty_frames);
+        maxstat("tuner_longest_single_object_stream_samples", S.samples);
+        maxstat("tuner_long_stream_largest_frame", S.max_frame);
+        maxstat("tuner_long_stream_slowest_object_ms", (long long)(S.secs * 1000));
+        if (S.total > (1LL << 30)) out.stat("tuner_long_stream_ms_" + S.label, (long long)(S.secs * 1000));
+        if (S.frame_boundary_on_centre) out.stat("tuner_long_stream_frame_boundary_exactly_on_a_power_of_two");
+        out.stat(integral ? "tuner_long_stream_integer_f" : "tuner_long_stream_fractional_f");
+        worst(integral ? "tuner_long_integer_f" : "tuner_long_fractional_f", S.worst_ratio);
+        if (S.threw) { out.fail("C14:tuner-long-stream", head + ",\"threw\":true}"); continue; }
+        if (S.size_bad) { out.fail("C14:tuner-long-stream", head + ",\"frame_start\":" + std::to_string(S.bad_frame_start) + ",\"frame_length\":" + std::to_string(S.bad_frame_len) + ",\"size\":\"wrong\"}"); continue; }
+        if (S.bad_k >= 0) {
+            std::ostringstream w;
+            w << head << ",\"index\":" << S.bad_k << ",\"index_minus_2^31\":" << (S.bad_k - (1LL << 31)) << ",\"frame_start\":" << S.bad_frame_start << ",\"frame_length\":" << S.bad_frame_len
+              << ",\"got\":" << jval(S.bad_got) << ",\"expected\":[" << vh::jnum((double)S.bad_er) << "," << vh::jnum((double)S.bad_ei) << "],\"error\":"
+              << vh::jnum((double)hypotl((ld)S.bad_got.re - S.bad_er, (ld)S.bad_got.im - S.bad_ei)) << ",\"bound\":" << vh::jnum((double)S.bad_bound) << "}";
+            out.fail("C14:tuner-long-stream", w.str());
+            continue;
+        }
+        if (S.samples != S.total) { out.fail("C14:tuner-long-stream", head + ",\"samples_done\":" + std::to_string(S.samples) + "}"); continue; }
+        // CORR: 64 outputs around every centre, recomputed by the model from the counter value itself
+        for (size_t w = 0; w < S.centres.size(); ++w) {
+            arr_cmplx v(64);
+            for (int i = 0; i < 64; ++i) v[i] = S.win[w][i];
+            out.corr("tunk " + std::to_string(S.fs) + " " + vh::hx(S.f) + " " + std::to_string(S.seed % 1000000) + " " + std::to_string(SOAK_P) + " " + std::to_string(S.centres[w] - 32) + " 64", vh::hxs(v));
+        }
     }
 }
 
@@ -788,10 +1774,18 @@ int main(int argc, char** argv) {
     g_seed = a.seed;
     vh::Rng rng(a.seed * 0x9e3779b97f4a7c15ULL + 14);
     const char* only = std::getenv("VERIF_PHASE");   // development aid: run a single phase
+    // the long Tuner streams run on worker threads beside the other phases (they only touch their own objects; reported at the end)
+    vh::Rng srng(a.seed * 0x9e3779b97f4a7c15ULL + 1414);
+    if (!only || std::strchr(only, 's')) { soak_plan(a.thorough, srng); soak_start(); }
     if (!only || std::strchr(only, 'h')) run_hilbert(a.thorough, rng);
     if (!only || std::strchr(only, 'd')) run_delay(a.thorough, rng);
     if (!only || std::strchr(only, 'f')) run_hf(a.thorough, rng);
     if (!only || std::strchr(only, 't')) run_tuner(a.thorough, rng);
+    vh::Rng lrng(a.seed * 0x9e3779b97f4a7c15ULL + 141414);   // own generator: the phases above keep their case streams
+    if (!only || std::strchr(only, 'l')) run_life(a.thorough, lrng);
+    if (!only || std::strchr(only, 'e')) run_temporaries(a.thorough, lrng);
+    if (!only || std::strchr(only, 'b')) run_large(a.thorough, lrng);
+    if (!only || std::strchr(only, 's')) soak_finish();
     out.finish();
     return 0;
 }
